@@ -13,6 +13,16 @@ import (
 
 var timeType = reflect.TypeFor[time.Time]()
 
+// isSQLNull: database/sql's NullInt64, NullString, … {value, Valid}.
+func isSQLNull(t reflect.Type) bool {
+	return t.Kind() == reflect.Struct && t.PkgPath() == "database/sql" && t.NumField() == 2 && t.Field(1).Name == "Valid"
+}
+
+// nullWrapper: github.com/unravelin/null's types embed one sql.NullX.
+func nullWrapper(t reflect.Type) bool {
+	return t.Kind() == reflect.Struct && t.NumField() == 1 && t.Field(0).Anonymous && isSQLNull(t.Field(0).Type)
+}
+
 // ---------------------------------------------------------------------------
 // Value generation (reflect-driven, from the plan's value seed)
 
@@ -201,6 +211,9 @@ func GenValue(v reflect.Value, r *Rng, o GenOpts, tag reflect.StructTag) {
 	case reflect.Struct:
 		for i := 0; i < t.NumField(); i++ {
 			GenValue(v.Field(i), r, o, t.Field(i).Tag)
+		}
+		if isSQLNull(t) && !v.FieldByName("Valid").Bool() {
+			v.Set(reflect.Zero(t)) // an invalid wrapper is null: its payload carries nothing
 		}
 	default:
 		panic("GenValue: unsupported kind " + t.Kind().String())
@@ -514,6 +527,13 @@ func SchemaOf(t reflect.Type) *ref.Schema {
 	if t == timeType {
 		return ref.Nullable(ref.Prim("string"))
 	}
+	if nullWrapper(t) {
+		inner := t.Field(0).Type.Field(0).Type
+		if inner == timeType {
+			return ref.Nullable(ref.Prim("string"))
+		}
+		return ref.Nullable(SchemaOf(inner))
+	}
 	switch t.Kind() {
 	case reflect.Bool:
 		return ref.Prim("boolean")
@@ -615,6 +635,17 @@ func ToDatum(s *ref.Schema, v reflect.Value, omit bool, sp splitter) ref.Datum {
 					break
 				}
 				v = v.Elem()
+			}
+		}
+		if !isNull && nullWrapper(v.Type()) {
+			if !v.Field(0).Field(1).Bool() {
+				isNull = true
+			} else {
+				v = v.Field(0).Field(0)
+				if v.Type() == timeType {
+					return &ref.Union{Branch: vb, Val: v.Interface().(time.Time).Format(time.RFC3339Nano)}
+				}
+				return &ref.Union{Branch: vb, Val: ToDatum(s.Branches[vb], v, false, sp)}
 			}
 		}
 		if !isNull && v.Type() == timeType && v.Interface().(time.Time).IsZero() {
